@@ -25,7 +25,8 @@ func constLine() string {
 		{"SuicideRefundGas", params.SuicideRefundGas}, {"LogGas", params.LogGas}, {"LogTopicGas", params.LogTopicGas},
 		{"SstoreSentryGas", params.SstoreSentryGas}, {"SstoreNoopGas", params.SstoreNoopGas}, {"SstoreDirtyGas", params.SstoreDirtyGas},
 		{"SstoreInitGas", params.SstoreInitGas}, {"SstoreCleanGas", params.SstoreCleanGas}, {"SstoreInitRefund", params.SstoreInitRefund},
-		{"SstoreCleanRefund", params.SstoreCleanRefund}, {"SstoreClearRefund", params.SstoreClearRefund}, {"CallCreateDepth", params.CallCreateDepth}}
+		{"SstoreCleanRefund", params.SstoreCleanRefund}, {"SstoreClearRefund", params.SstoreClearRefund}, {"CallCreateDepth", params.CallCreateDepth},
+		{"EcrecoverGas", params.EcrecoverGas}, {"Sha256BaseGas", params.Sha256BaseGas}, {"Ripemd160BaseGas", params.Ripemd160BaseGas}, {"IdentityBaseGas", params.IdentityBaseGas}}
 	l := "CONST"
 	for _, x := range kv {
 		l += fmt.Sprintf(" %s=%d", x.k, x.v)
@@ -82,6 +83,9 @@ func leanEventNorm(e string) string {
 		return e
 	}
 	f[2] = coarse(f[2])
+	if isPrecompileHex(f[5]) && f[2] == "err-oog" {
+		f[2] = "err-evm" // a precompile that runs out of gas fails outside the interpreter: the tracer sees no error
+	}
 	if f[1] == "4" || f[1] == "5" {
 		f[3] = "-" // the tracer sees the creator's gas after the operation, not the split
 		if f[2] != "ok" {
@@ -89,6 +93,15 @@ func leanEventNorm(e string) string {
 		}
 	}
 	return strings.Join(f, ":")
+}
+
+func isPrecompileHex(a string) bool {
+	for n := uint64(1); n <= 4; n++ {
+		if a == ah(addrN(n)) {
+			return true
+		}
+	}
+	return false
 }
 
 func goEvent(e event) string {
@@ -264,15 +277,6 @@ func evaluate(c *testCase, drv *vh.Driver) (verdict, *caseResult, int, error) {
 		return verdict{kind: "invalid", what: fatal}, g, 0, nil
 	}
 	for i, t := range g.txs {
-		if t.panicMsg != "" {
-			v := verdict{kind: "crash", what: fmt.Sprintf("tx %d: the real EVM/StateDB panicked: %s", i, t.panicMsg)}
-			if strings.Contains(t.panicMsg, "cannot be reverted") {
-				v.matcher = "c09-revision-panic"
-			}
-			return v, g, 0, nil
-		}
-	}
-	for i, t := range g.txs {
 		for _, vi := range t.viol {
 			v := verdict{kind: "oracle", what: fmt.Sprintf("tx %d: %s: %s", i, vi.oracle, vi.what)}
 			if gh := ghostBalances(g, i); len(gh) > 0 && (vi.oracle == "balance_conserved" || vi.oracle == "static_changes_nothing" || vi.oracle == "failed_frame_no_trace") {
@@ -292,6 +296,13 @@ func evaluate(c *testCase, drv *vh.Driver) (verdict, *caseResult, int, error) {
 				if only {
 					v.matcher = "deleted-balance-resurrected"
 				}
+			}
+			return v, g, 0, nil
+		}
+		if t.panicMsg != "" {
+			v := verdict{kind: "crash", what: fmt.Sprintf("tx %d: the real EVM/StateDB panicked: %s", i, t.panicMsg)}
+			if strings.Contains(t.panicMsg, "cannot be reverted") {
+				v.matcher = "c09-revision-panic"
 			}
 			return v, g, 0, nil
 		}
@@ -506,7 +517,7 @@ func run(c *vh.Ctx) error {
 		case i%40 == 7:
 			tc, stream = ghostCase(c.R), "deleted-then-touched"
 		case i%deepEvery == 11:
-			tc, stream = deepCase(c.R), "depth-limit"
+			tc, stream = deepCase(c.R, i/deepEvery), "depth-limit"
 		default:
 			tc = genCase(c.R)
 		}
